@@ -32,6 +32,9 @@ BitMasked(m, vw, lsb, n, x) == [c |-> "BitMasked", m |-> m, vw |-> vw, lsb |-> l
 Unmasked(x)        == [c |-> "Unmasked", x |-> x]
 RecordL(names, tuple, n, xs) == [c |-> "Record", names |-> names, tuple |-> tuple, n |-> n, xs |-> xs]
 UnionL(t, i, xs)   == [c |-> "Union", t |-> t, i |-> i, xs |-> xs]
+\* an array of strings: ListOffsetArray(__array__="string") over NumpyArray(uint8, __array__="char"); a leaf for the
+\* list-structure operations (strings are units), bs = 1 for bytestring/byte
+StrL(o, d, bs)     == [c |-> "Str", o |-> o, d |-> d, bs |-> bs]
 
 IsOptionL(L)  == L.c \in {"IndexedOption", "ByteMasked", "BitMasked", "Unmasked"}
 IsListL(L)    == L.c \in {"ListOffset", "List", "Regular"}
@@ -51,6 +54,7 @@ LLen(L) == CASE L.c = "Numpy"         -> Len(L.d)
              [] L.c = "Unmasked"      -> LLen(L.x)
              [] L.c = "Record"        -> L.n
              [] L.c = "Union"         -> Len(L.t)
+             [] L.c = "Str"           -> Len(L.o) - 1
 
 RECURSIVE LDepth(_)
 LDepth(L) == IF HasX(L) THEN 1 + LDepth(L.x)
@@ -74,6 +78,11 @@ RECURSIVE Valid(_)
 Valid(L) ==
   CASE L.c = "Numpy" -> TRUE
     [] L.c = "Empty" -> TRUE
+    [] L.c = "Str" ->
+         /\ Len(L.o) >= 1
+         /\ \A i \in 1..(Len(L.o) - 1) :
+               LET a == L.o[i] b == L.o[i + 1] IN
+               a # b => (a < b /\ a >= 0 /\ b <= Len(L.d))
     [] L.c = "Regular" -> L.size >= 0 /\ L.zl >= 0 /\ Valid(L.x)
     [] L.c = "ListOffset" ->
          /\ Len(L.o) >= 1
@@ -121,6 +130,7 @@ RECURSIVE TypeOf(_)
 TypeOf(L) ==
   CASE L.c = "Numpy" -> TNum(L.dt)
     [] L.c = "Empty" -> TUnknown
+    [] L.c = "Str" -> IF L.bs = 1 THEN TBytes ELSE TStr
     [] L.c = "Regular" -> TReg(L.size, TypeOf(L.x))
     [] L.c \in {"ListOffset", "List"} -> TVar(TypeOf(L.x))
     [] L.c = "Indexed" -> TypeOf(L.x)
@@ -136,6 +146,7 @@ ToListS(L) ==
   LET n == LLen(L) IN
   CASE L.c = "Numpy" -> [k \in 1..n |-> IF L.d[k] = NaNCode THEN VNaN ELSE VInt(L.d[k])]
     [] L.c = "Empty" -> <<>>
+    [] L.c = "Str" -> [k \in 1..n |-> VStr(SubSeq(L.d, L.o[k] + 1, L.o[k + 1]))]
     [] L.c = "Regular" ->
          LET c == ToListS(L.x) IN
          [k \in 1..n |-> VList(SubSeq(c, (k - 1) * L.size + 1, k * L.size))]
